@@ -242,4 +242,39 @@ p("c08-p-guard-positive-form", "C08", CYKF,
   "        if not self._generates_all_terminals():\n            self._cyk_table[(0, len(self._word))] = set()\n        else:\n            self._set_cyk_table()",
   "        if self._generates_all_terminals():\n            self._set_cyk_table()\n        else:\n            self._cyk_table[(0, len(self._word))] = set()")
 
+# ----------------------------------------------------------------------------- C09
+CFGF = "pyformlang/cfg/cfg.py"
+b("c09-reachable-on-self", "C09", CFGF,
+  "        reachables = cfg_temp.get_reachable_symbols()", "        reachables = self.get_reachable_symbols()",
+  "reachable-computed-on-generating-filtered")
+b("c09-no-reachable-filter", "C09", CFGF,
+  "        productions = [x for x in productions\n                       if x.head in reachables]\n", "",
+  "productions-filtered-by-reachable")
+b("c09-pipeline-skips-unit", "C09", CFGF,
+  "                .remove_useless_symbols() \\\n                .eliminate_unit_productions() \\\n                .remove_useless_symbols()",
+  "                .remove_useless_symbols()", "slow-path-order")
+b("c09-pipeline-epsilon-last", "C09", CFGF,
+  "            new_cfg = self.remove_useless_symbols() \\\n                .remove_epsilon() \\\n                .remove_useless_symbols() \\\n                .eliminate_unit_productions() \\\n                .remove_useless_symbols()",
+  "            new_cfg = self.remove_useless_symbols() \\\n                .eliminate_unit_productions() \\\n                .remove_useless_symbols() \\\n                .remove_epsilon() \\\n                .remove_useless_symbols()",
+  "slow-path-order")
+b("c09-decompose-before-lift", "C09", CFGF,
+  "        new_productions = self._get_productions_with_only_single_terminals()\n        new_productions = self._decompose_productions(new_productions)",
+  "        new_productions = self._get_productions_with_only_single_terminals()\n        new_productions = self._decompose_productions(list(self._productions))",
+  "fast-path-lift-before-binarise")
+b("c09-cache-wrong-grammar", "C09", CFGF,
+  "            cfg = new_cfg.to_normal_form()\n            self._normal_form = cfg\n            return cfg",
+  "            cfg = new_cfg.to_normal_form()\n            self._normal_form = new_cfg\n            return cfg",
+  "cache-stores-returned-value")
+b("c09-unit-base-keeps-units", "C09", CFGF,
+  "        productions = [x\n                       for x in self._productions\n                       if len(x.body) != 1\n                       or not isinstance(x.body[0], Variable)]",
+  "        productions = [x\n                       for x in self._productions]", "base-set-excludes-unit-productions")
+b("c09-epsilon-keeps-empty", "C09", "pyformlang/cfg/utils_cfg.py",
+  "           for prod_l in next_prod_l\n           if prod_l]", "           for prod_l in next_prod_l]", "drops-empty-bodies")
+b("c09-cnf-var-bare", "C09", CFGF,
+  "                idx, var = self._get_next_free_variable(idx, \"C#CNF#\")",
+  "                idx += 1\n                var = Variable(\"C#CNF#\" + str(idx))", "unproven-name")
+p("c09-p-pipeline-locals", "C09", CFGF,
+  "            new_cfg = self.remove_useless_symbols() \\\n                .remove_epsilon() \\\n                .remove_useless_symbols() \\\n                .eliminate_unit_productions() \\\n                .remove_useless_symbols()",
+  "            step1 = self.remove_useless_symbols()\n            step2 = step1.remove_epsilon()\n            step3 = step2.remove_useless_symbols()\n            step4 = step3.eliminate_unit_productions()\n            new_cfg = step4.remove_useless_symbols()")
+
 VARIANTS = V
